@@ -237,13 +237,13 @@ def check_matrix(chk, rng, quick):
                 else:
                     chk.nontrivial(('matrix', maxv, bs, len(means)))
         # non-trivial sensitivities, from/to matrices symmetric about zero: totals only
-        for k in range(20 if quick else 120):
-            w = rng.choice([1.0, 2.0, 10.0])
-            nn = rng.choice([2, 3, 4])
+        for k in range(160 if quick else 800):
+            w = rng.choice([1.0, 2.0, 10.0, 0.7, 3.3])
+            nn = rng.choice([2, 3, 4, 5, 7, 9])
             edges = [w * (i - nn) for i in range(2 * nn + 1)]
             iv = pd.IntervalIndex.from_breaks(edges)
             idx = pd.MultiIndex.from_product([iv, iv], names=['from', 'to'])
-            counts = [float(rng.randint(0, 4)) for _ in range(len(idx))]
+            counts = [float(rng.randint(0 if k % 2 else 1, 4)) for _ in range(len(idx))]      # every second matrix fully populated (the largest transformed range is occupied)
             mat = pd.Series(counts, index=idx)
             M = rng.choice([0.0, 0.25, 0.3, 0.5])
             Rg = rng.choice([-1.0, 0.0, -0.5, 0.5])
@@ -257,6 +257,70 @@ def check_matrix(chk, rng, quick):
                     chk.nontrivial(('ft', k))
             except Exception as ex:
                 chk.violation('matrix transformation raised %r' % ex, {'edges': edges, 'M': M, 'R_goal': Rg}, part='matrix')
+        # matrices with an additional index level (node_id), each node owning OTHER classes (sparse matrices), optionally with per-node
+        # sensitivities: every node's result = its own cycles at their transformed ranges, sorted into the result's own classes
+        from pylife.strength.meanstress import fkm_goodman as _fg
+        for k in range(6 if quick else 40):
+            w = rng.choice([1.0, 2.0, 0.7])
+            nn = rng.choice([2, 3])
+            edges = [w * (i - nn) for i in range(2 * nn + 1)]
+            iv = pd.IntervalIndex.from_breaks(edges)
+            full = pd.MultiIndex.from_product([iv, iv], names=['from', 'to'])
+            nodes = {}
+            for nid in (7, 3, 5)[:rng.choice([2, 3])]:
+                cnt = pd.Series([float(rng.randint(0, 3)) for _ in range(len(full))], index=full)
+                cnt = cnt[cnt > 0]
+                if len(cnt):
+                    nodes[nid] = cnt
+            if len(nodes) < 2:
+                continue
+            mat = pd.concat(nodes, names=['node_id'])
+            if rng.random() < 0.5:
+                mat = mat.reorder_levels(['from', 'to', 'node_id'])
+            per_node = rng.random() < 0.5
+            sens = {nid: (rng.choice([0.0, 0.25, 0.3, 0.5]), rng.choice([0.0, 0.1])) for nid in nodes}
+            if not per_node:
+                sens = {nid: sens[list(nodes)[0]] for nid in nodes}
+            haigh = pd.DataFrame({'M': [sens[n_][0] for n_ in nodes], 'M2': [sens[n_][1] for n_ in nodes]}, index=pd.Index(list(nodes), name='node_id')) if per_node \
+                else pd.Series({'M': sens[list(nodes)[0]][0], 'M2': sens[list(nodes)[0]][1]})
+            Rg = rng.choice([-1.0, 0.0, -0.5])
+            n += 1
+            chk.evals(1)
+            case = {'edges': edges, 'R_goal': Rg, 'per_node_sensitivities': per_node, 'sensitivities': {str(a): list(b) for a, b in sens.items()},
+                    'populated_classes_per_node': {str(a): len(b) for a, b in nodes.items()}, 'level_order': list(mat.index.names)}
+            try:
+                out = mat.meanstress_transform.fkm_goodman(haigh, Rg).to_pandas()
+            except Exception as ex:
+                chk.violation('transformation of a matrix with a node_id level raised %r' % ex, case, part='matrix')
+                continue
+            ok = True
+            for nid, cnt in nodes.items():
+                o = out.xs(nid, level='node_id')
+                o = o.groupby(level='range', sort=False).sum() if isinstance(o.index, pd.MultiIndex) else o
+                classes = sorted(o.index, key=lambda i_: i_.left)
+                want = {c_: 0.0 for c_ in classes}
+                lost = 0.0
+                for (fi, ti), c in cnt.items():
+                    a_, m_ = abs(fi.mid - ti.mid) / 2.0, (fi.mid + ti.mid) / 2.0
+                    r_ = 2.0 * float(_fg(np.array([a_]), np.array([m_]), sens[nid][0], sens[nid][1], Rg)[0])
+                    hit = [c_ for j, c_ in enumerate(classes) if ((r_ >= c_.left - 1e-9 if j == 0 else r_ > c_.left + 1e-9) and r_ <= c_.right + 1e-9) or abs(r_ - c_.left) <= 1e-9 and j > 0 and False]
+                    near = [c_ for c_ in classes if abs(r_ - c_.left) <= 1e-9 or abs(r_ - c_.right) <= 1e-9]
+                    if near:            # a transformed range on a class border may go to either neighbour in floating point: only totals are compared then
+                        lost = None
+                        break
+                    if hit:
+                        want[hit[0]] += c
+                if not close(float(o.sum()), float(cnt.sum()), 1e-12):
+                    chk.violation('matrix with a node_id level: the cycles of a node are not conserved', {**case, 'node': nid}, float(cnt.sum()), float(o.sum()), part='matrix')
+                    ok = False
+                    break
+                if lost is not None and not close([float(o[c_]) for c_ in classes], [want[c_] for c_ in classes], 1e-12):
+                    chk.violation('matrix with a node_id level: the cycles of a node are not in the result classes of their own transformed ranges', {**case, 'node': nid},
+                                  [want[c_] for c_ in classes], [float(o[c_]) for c_ in classes], part='matrix')
+                    ok = False
+                    break
+            if ok:
+                chk.nontrivial(('matrix_nodes', k))
     chk.part('matrix', matrices=n)
     return n
 
